@@ -396,9 +396,9 @@ def process_missing_and_gates(
 
         if not insoluble:
             recursive_event_set = {
-                event_set
+                event_set & universe
                 for event_set in ev.get_reduced_event_set(event_sets)
-                if event_set.issubset(universe)
+                if event_set & universe
             }
             if universe in recursive_event_set:
                 recursive_event_set.remove(universe)
